@@ -57,8 +57,20 @@ def specs(tier):
                      'development/4.3', queue=False, depth=4, decline=True),
                 spec('c08-q-D2', 'D2', 'development/4.3', 'development/5.1',
                      depth=4, admin=[['delete_queues']]),
-                recreate_spec(6), conflict_spec(False, 5)]
-    return [conflict_spec(False, 8), conflict_spec(True, 8),spec('c08-noq-D2', 'D2', 'development/4.3', 'development/4.3',
+                recreate_spec(6), conflict_spec(False, 5),
+                # integration branches deleted by hand while their pull
+                # requests stay open, then decline
+                spec('c08-noq-D2-wdeleted', 'D2', None, None, queue=False,
+                     depth=3, decline=True, delete_w=True,
+                     init=[['open', PR1, 'development/4.3'],
+                           ['eval_pr', 1]])]
+    return [spec('c08-noq-D3-wdeleted', 'D3', None, None, queue=False,
+                 depth=5, decline=True, delete_w=True, comments=reset,
+                 init=[['open', PR1, 'development/4.3'], ['eval_pr', 1]]),
+            spec('c08-q-D3-wdeleted', 'D3', None, None, depth=5,
+                 decline=True, delete_w=True,
+                 init=[['open', PR1, 'development/4.3'], ['eval_pr', 1]]),
+            conflict_spec(False, 8), conflict_spec(True, 8),spec('c08-noq-D2', 'D2', 'development/4.3', 'development/4.3',
                  queue=False, depth=6, decline=True, comments=reset),
             spec('c08-q-D2', 'D2', 'development/4.3', 'development/5.1',
                  depth=6, decline=True, comments=reset,
